@@ -91,7 +91,7 @@ func checkC06(c *Ctx) {
 	c06AON(c, res, top, comp, un)
 
 	// ---- VER
-	c06Version(c, hun)
+	c06Version(c, hun, "C06-VER")
 }
 
 // c06NoCap: no cap() and no 3-index slice in the decode universe.
@@ -482,7 +482,7 @@ func c06AON(c *Ctx, res *numResult, top, comp, un *ssa.Function) {
 }
 
 // c06Version: Header.Unmarshal rejects every first octet whose version bits are not 2.
-func c06Version(c *Ctx, hun *ssa.Function) {
+func c06Version(c *Ctx, hun *ssa.Function, rule string) {
 	r := c.Rep
 	p := c.Prog
 	var mu sync.Mutex
@@ -515,9 +515,9 @@ func c06Version(c *Ctx, hun *ssa.Function) {
 	if len(wrongAcc) > 0 {
 		key += fmt.Sprintf("[accepts %d octets, first %s]", len(wrongAcc), wrongAcc[0])
 	}
-	r.Check(len(wrongAcc) == 0, "C06-VER", key, p.Pos(hun.Pos()),
+	r.Check(len(wrongAcc) == 0, rule, key, p.Pos(hun.Pos()),
 		"for all 192 first octets with version bits != 2 every return carries a non-nil error", "a nil-error return is reachable for first octets "+strings.Join(wrongAcc, ","))
-	r.Check(len(wrongRej) == 0, "C06-VER", "(*Header).Unmarshal/accepts-version-2", p.Pos(hun.Pos()),
+	r.Check(len(wrongRej) == 0, rule, "(*Header).Unmarshal/accepts-version-2", p.Pos(hun.Pos()),
 		"for all 64 first octets with version bits 2 a nil-error return is reachable", "no nil-error return for "+strings.Join(wrongRej, ","))
 	_ = types.Typ
 }
